@@ -3,6 +3,7 @@
 usage: seed_matrix.py [seed ids...] [--props C01,C02]   (default: all seeds, own property)"""
 import json, os, subprocess, sys, time
 VERIF = os.path.dirname(os.path.dirname(os.path.abspath(__file__)))
+REPO = os.environ.get("ORQ_REPO", "/repo")
 args = [a for a in sys.argv[1:] if not a.startswith("--")]
 extra = [a.split("=", 1)[1].split(",") for a in sys.argv[1:] if a.startswith("--props=")]
 seeds = args or sorted(d for d in os.listdir(os.path.join(VERIF, "seeded")) if os.path.isdir(os.path.join(VERIF, "seeded", d)))
@@ -11,8 +12,8 @@ for sd in seeds:
     patch = os.path.join(VERIF, "seeded", sd, "patch.diff")
     pid = sd.split("_")[0]
     props = extra[0] if extra else [pid]
-    subprocess.run(["git", "-C", "/repo", "checkout", "--", "."], check=True)
-    r = subprocess.run(["git", "-C", "/repo", "apply", patch], capture_output=True)
+    subprocess.run(["git", "-C", REPO, "checkout", "--", "."], check=True)
+    r = subprocess.run(["git", "-C", REPO, "apply", patch], capture_output=True)
     if r.returncode != 0:
         print(sd, "patch does not apply:", r.stderr.decode()[:200]); continue
     try:
@@ -25,5 +26,5 @@ for sd in seeds:
             results[(sd, p)] = (r.returncode, viol[:1], last)
             print("%s under %s: exit %d %s | %s (%.0fs)" % (sd, p, r.returncode, viol[:1], last[:160], time.time() - t0), flush=True)
     finally:
-        subprocess.run(["git", "-C", "/repo", "checkout", "--", "."], check=True)
+        subprocess.run(["git", "-C", REPO, "checkout", "--", "."], check=True)
 json.dump({"%s/%s" % k: v for k, v in results.items()}, open(os.path.join(VERIF, "out", "seed_matrix.json"), "w"), indent=1)
